@@ -11,10 +11,23 @@ let show_out (o: out) : string = match o with
   | OInt z -> "i:" ^ string_of_z z
   | OIdx None -> "none"
   | OIdx (Some i) -> "at:" ^ string_of_int (int_of_nat i)
+  | ORead r -> Printf.sprintf "rd:%s:%d:%d:%s" (string_of_z r.rf_n) (int_of_nat r.rf_iovcnt) (int_of_nat r.rf_len0)
+                 (match r.rf_errno with None -> "-" | Some e -> string_of_z e)
+let width_of (k: string) : width = match k with
+  | "1" -> W8 | "2" -> W16 | "4" -> W32 | "8" -> W64 | _ -> failwith ("bad width " ^ k)
 let parse_op (w: string list) : op = match w with
   | ["A"; d] -> Append (bytes_of_spec d)
   | ["P"; d] -> Prepend (bytes_of_spec d)
   | ["R"; n] -> Retrieve (nat_of_int (int_of_string n))
+  | ["RU"; n] -> RetrieveUntil (z_of_string n)
+  | ["RN"; k] -> RetrieveInt (width_of k)
+  | ["RAS"] -> RetrieveAllAsString
+  | ["TS"] -> ToStringPiece
+  | ["IC"] -> InternalCapacity
+  | ["AS"] -> Assign
+  | ["RFE"; e] -> ReadFd (KErr (z_of_string e))
+  | ["FC0"] -> FindCRLF0
+  | ["FE0"] -> FindEOL0
   | ["RA"] -> RetrieveAll
   | ["RS"; n] -> RetrieveAsString (nat_of_int (int_of_string n))
   | ["EW"; n] -> EnsureWritable (nat_of_int (int_of_string n))
@@ -22,13 +35,13 @@ let parse_op (w: string list) : op = match w with
   | ["UW"; n] -> Unwrite (nat_of_int (int_of_string n))
   | ["SH"; n] -> Shrink (nat_of_int (int_of_string n))
   | ["SW"] -> Swap
-  | ["RF"; d] -> ReadFd (bytes_of_spec d)
-  | ["AI"; k; x] -> AppendInt (nat_of_int (int_of_string k), z_of_string x)
-  | ["PI"; k; x] -> PrependInt (nat_of_int (int_of_string k), z_of_string x)
-  | ["KI"; k] -> PeekInt (nat_of_int (int_of_string k))
-  | ["RI"; k] -> ReadInt (nat_of_int (int_of_string k))
-  | ["FC"; n] -> FindCRLF (nat_of_int (int_of_string n))
-  | ["FE"; n] -> FindEOL (nat_of_int (int_of_string n))
+  | ["RF"; d] -> ReadFd (KData (bytes_of_spec d))
+  | ["AI"; k; x] -> AppendInt (width_of k, z_of_string x)
+  | ["PI"; k; x] -> PrependInt (width_of k, z_of_string x)
+  | ["KI"; k] -> PeekInt (width_of k)
+  | ["RI"; k] -> ReadInt (width_of k)
+  | ["FC"; n] -> FindCRLF (z_of_string n)
+  | ["FE"; n] -> FindEOL (z_of_string n)
   | _ -> failwith ("bad op: " ^ String.concat " " w)
 let () =
   let st = ref (new_buf O, new_buf O) in
@@ -44,7 +57,9 @@ let () =
     | ["end"] -> print_string "end\n"; flush stdout
     | w ->
         if !dead then print_string "skipped\n" else
-        (match step !st (parse_op w) with
+        (let cap = int_of_nat (readFd_capacity (fst !st)) in
+         match step !st (parse_op w) with
+         | Ok (st', (ORead _ as o)) -> st := st'; Printf.printf "ok %s:cap=%d %s\n" (show_out o) cap (show_state st')
          | Ok (st', o) -> st := st'; Printf.printf "ok %s %s\n" (show_out o) (show_state st')
          | Rejected -> Printf.printf "rejected - %s\n" (show_state !st)
          | Fault -> dead := true; print_string "FAULT\n");
